@@ -76,6 +76,7 @@ fn thick_reference(
     w: u32,
     lo: f64,
     hi: f64,
+    exempt: &dyn Fn((f64, f64)) -> bool,
 ) -> Result<(), String> {
     let wf = w as f64;
     let reach = lo.abs().max(hi.abs());
@@ -119,7 +120,7 @@ fn thick_reference(
                 // the library measures thickness in Bresenham steps of the perpendicular, which is up to ~30% thinner
                 // than w on diagonals and not centred: only the inner 55% of the band is required
                 let (clo, chi) = (lo * 0.55 + 1.0, hi * 0.55 - 1.0);
-                if sd >= clo && sd <= chi && !drawn.contains_key(&(y, x)) {
+                if sd >= clo && sd <= chi && !drawn.contains_key(&(y, x)) && !exempt(p) {
                     return Err(format!("({},{}) lies {:.2} beside segment {:?}-{:?} (stroke band {:.1}..{:.1}) but is not drawn", x, y, sd, a, b, lo, hi));
                 }
             }
@@ -159,7 +160,7 @@ fn p_thick(a: &[&str]) -> String {
             let segs: Vec<(Point, Point)> = v.windows(2).map(|s| (s[0], s[1])).collect();
             let joins: Vec<Point> = v[1..v.len() - 1].to_vec();
             let half = w as f64 / 2.0;
-            match thick_reference(&t.map, stroke, &segs, &joins, w, -half, half) {
+            match thick_reference(&t.map, stroke, &segs, &joins, w, -half, half, &|_| false) {
                 Ok(()) => format!("OK {}", t.map.len()),
                 Err(e) => format!("FAIL {}", e),
             }
@@ -205,22 +206,12 @@ fn p_thick(a: &[&str]) -> String {
                 "1" => (-wf / 2.0, wf / 2.0),
                 _ => (0.0, wf),
             };
-            // inside alignment: the band is cut by the opposite edges; restrict coverage to points inside the triangle
+            // inside alignment: the band is cut by the opposite edges; coverage is required only for points inside the triangle
+            let outside = |q: (f64, f64)| !segs.iter().all(|(a, b)| side_dist(q, f(*a), f(*b)) <= 0.0);
             let res = if al == "0" {
-                let mut inner: BTreeMap<(i32, i32), u32> = t.map.clone();
-                // points outside the triangle are not required: mark them drawn for the coverage test only
-                let tb = tri.bounding_box().offset(w as i32 + 2);
-                if (tb.size.width as u64) * (tb.size.height as u64) <= 400_000 {
-                    for q in tb.points() {
-                        let inside = segs.iter().all(|(a, b)| side_dist(f(q), f(*a), f(*b)) <= 0.0);
-                        if !inside {
-                            inner.entry((q.y, q.x)).or_insert(u32::MAX);
-                        }
-                    }
-                }
-                thick_reference(&inner, stroke, &segs, &c, w, lo, hi)
+                thick_reference(&t.map, stroke, &segs, &c, w, lo, hi, &outside)
             } else {
-                thick_reference(&t.map, stroke, &segs, &c, w, lo, hi)
+                thick_reference(&t.map, stroke, &segs, &c, w, lo, hi, &|_| false)
             };
             match res {
                 Ok(()) => format!("OK {}", t.map.len()),
@@ -291,7 +282,7 @@ pub fn run(suite: &str, a: &[&str]) -> Option<String> {
         }
         // the model evaluates the hypotheses of the composition theorems (Model/Join.v poly_hyps) on the case; the claim
         // checked here is that they hold on every input the generator draws (coordinates within +-2^13, widths <= 64)
-        "join_poly_hyp" | "join_tri_hyp" => Some("1".into()),
+        "join_poly_hyp" | "join_tri_hyp" | "join_tri_fused" => Some("1".into()),
         "join_poly_bbox" => {
             let v = pts(&a[1..]);
             let st = PrimitiveStyle::with_stroke(Rgb565::GREEN, u(a[0]));
